@@ -97,7 +97,9 @@ type World struct {
 	GateHook func(t *Task, g GateInfo)
 
 	viol        *sim.Violation
-	Prop        string // property of the scenario being run
+	Prop        string         // property of the scenario being run
+	known       *sim.Violation // first recorded (known) finding hit in this run
+	KnownHits   int
 	fakeSeconds float64
 	Abstract    map[string]bool
 }
@@ -209,6 +211,16 @@ func (w *World) Path(parts ...string) string {
 
 // Fail records the first violation of the run.
 func (w *World) Fail(prop, signature, detail string) {
+	if sim.IsKnownFinding(prop, signature) {
+		// a recorded finding: remember the first instance and keep going, so
+		// that a different violation in the same run is still seen
+		if w.known == nil {
+			w.known = &sim.Violation{Property: prop, Signature: signature, Detail: detail}
+			w.Log.Add("KNOWN %s %s", prop, signature)
+		}
+		w.KnownHits++
+		return
+	}
 	if w.viol == nil {
 		w.viol = &sim.Violation{Property: prop, Signature: signature, Detail: detail}
 		w.Log.Add("VIOLATION %s %s", prop, signature)
